@@ -129,6 +129,16 @@ impl Ctx {
     }
 }
 
+fn c_schedule_summary(s: &Schedule) -> Value {
+    let nw = s.get_network();
+    let mut m = serde_json::Map::new();
+    for v in s.vehicles_iter_all() {
+        let t = s.tour_of(v).unwrap();
+        m.insert(v.to_string(), json!(t.all_non_depot_nodes_iter().map(|n| nw.node(n).id().to_string()).collect::<Vec<_>>()));
+    }
+    Value::Object(m)
+}
+
 fn run_op(c: &mut Ctx, op: &Value) -> Value {
     let kind = op["op"].as_str().unwrap();
     let nw = c.nw.clone();
@@ -400,6 +410,44 @@ fn run_op(c: &mut Ctx, op: &Value) -> Value {
         }
         "schedule_to_json" => solution::json_serialisation::schedule_to_json(&c.scheds[op["schedule"].as_str().unwrap()]),
         "solve" => server::solve_instance(op["instance"].clone()),
+        "solve_compare" => {
+            // the server's answer next to the reference composition of the stages (mine, public API only):
+            // MCF -> improve_depots -> local search (if maintenance) -> transition optimisation per type ->
+            // set_next_day_transitions -> reassign end depots consistent with those transitions -> JSON
+            use rapid_solve::heuristics::Solver;
+            use solver::local_search::neighborhood::swaps::SwapInfo;
+            use solver::local_search::ScheduleWithInfo;
+            let inst = op["instance"].clone();
+            let server_out = server::solve_instance(inst.clone());
+            let network = load_rolling_stock_problem_instance_from_json(inst);
+            let objective = Arc::new(solver::objective::build());
+            let start = solver::min_cost_flow_solver::MinCostFlowSolver::initialize(network.clone()).solve();
+            let start_info = ScheduleWithInfo::new(start.improve_depots(None), SwapInfo::NoSwap, "start".to_string());
+            let mcf_json = c_schedule_summary(start_info.get_schedule());
+            let solution = if network.maintenance_considered() {
+                solver::local_search::build_local_search_solver(network.clone()).solve(start_info)
+            } else {
+                objective.evaluate(start_info.clone())
+            };
+            let schedule = solution.solution().get_schedule();
+            let ls_json = c_schedule_summary(schedule);
+            let tls = solver::transition_local_search::build_transition_local_search_solver(schedule, network.clone());
+            let mut optimized: im::HashMap<VehicleTypeIdx, Transition> = im::HashMap::new();
+            let mut opt_cycles = serde_json::Map::new();
+            for vt in network.vehicle_types().iter() {
+                let st = solver::transition_local_search::TransitionWithInfo::new(schedule.next_day_transition_of(vt).clone(), "init".to_string());
+                let improved = tls.solve(st).unwrap().unwrap_transition();
+                opt_cycles.insert(network.vehicle_types().get(vt).unwrap().id().clone(),
+                    json!(improved.cycles_iter().map(|cy| cy.iter().map(|v| v.to_string()).collect::<Vec<_>>()).collect::<Vec<_>>()));
+                optimized.insert(vt, improved);
+            }
+            let with_tr = schedule.set_next_day_transitions(optimized);
+            let fin = with_tr.reassign_end_depots_consistent_with_transitions();
+            let fin_info = ScheduleWithInfo::new(fin, SwapInfo::NoSwap, "final".to_string());
+            let fin_eval = objective.evaluate(fin_info);
+            json!({"server": server_out, "reference": {"schedule": solution::json_serialisation::schedule_to_json(fin_eval.solution().get_schedule()),
+                   "objective": objective.objective_value_to_json(fin_eval.objective_value()), "optimiser_cycles": opt_cycles, "ls": ls_json, "mcf": mcf_json}})
+        }
         _ => panic!("unknown op {}", kind),
     }
 }
